@@ -265,6 +265,20 @@ def _unclosed(which):
     return hashlib.sha1(out).hexdigest() + ":" + out[:60].decode("ascii", "replace"), True, ""
 
 
+def _ofxget_reads_garbage():
+    """ofxget's scan reads whatever a server answers: the readers of the script given an HTML error page and a mangled
+    profile (refusals are the expected outcome)"""
+    import io
+
+    from ofxtools.scripts import ofxget as og
+
+    out = []
+    for data in (b"<html><body>Service unavailable</body></html>", inputs()["prof_v1"].replace(b"<LANGUAGE>ENG", b"<LANGUAGE>KLINGON"), inputs()["truncated"]):
+        for fn in (og.extract_signoninfos, og.extract_acctinfos):
+            out.append(_fails(lambda: list(fn(io.BytesIO(data)))))
+    return repr(out), True, ""
+
+
 def _parse_small(which):
     term = U.MIN(U.cls_by_name("STMTTRNRS")) if which == "v1" else U.MIN(U.cls_by_name("ACCTINFOTRNRS"))
     data = wire.to_bytes(wire.doc(ofx_rs(("bankmsgsrsv1", ("BANKMSGSRSV1", {}, [term])) if which == "v1" else ("signupmsgsrsv1", ("SIGNUPMSGSRSV1", {}, [term])))), "sgml" if which == "v1" else "xml")
@@ -355,6 +369,7 @@ OPS = {
     "write_unclosed_small_request": lambda: _unclosed("rq"),
     "write_unclosed_small_response": lambda: _unclosed("rs"),
     "write_unclosed_failing": lambda: _unclosed("failing"),
+    "ofxget_reads_non_ofx_answers": _ofxget_reads_garbage,
     "parse_small_stmt_v1": lambda: _parse_small("v1"),
     "parse_small_acctinfo_v2": lambda: _parse_small("v2"),
     "string_wide_limit": lambda: _conv("string", False),
@@ -382,7 +397,7 @@ SMALL = ["dt_convert_fresh_descriptor", "dt_convert_class_descriptor", "dt_uncon
 MEDIUM = ["introspect_base_classes", "from_etree_mail", "from_etree_stockinfo", "from_etree_mfinfo_vendor", "two_instances_one_class", "from_etree_seclist"]
 PARSE_SMALL = ["parse_small_stmt_v1", "parse_small_acctinfo_v2"]
 WRITE_SMALL = ["write_unclosed_small_request", "write_unclosed_small_response"]
-EXTRA = ["parse_edit_header_parse_v1", "parse_edit_header_parse_v2", "write_unclosed_failing"] + WRITE_SMALL
+EXTRA = ["parse_edit_header_parse_v1", "parse_edit_header_parse_v2", "write_unclosed_failing", "ofxget_reads_non_ofx_answers"] + WRITE_SMALL
 CONV = ["string_wide_limit", "string_narrow_limit", "string_entity_wide_limit", "string_entity_narrow_limit", "nagstring_entity_wide_limit", "nagstring_entity_narrow_limit", "nagstring_wide_limit", "nagstring_narrow_limit", "integer_unbounded", "integer_three_digits", "decimal_unscaled", "decimal_two_places",
         "oneof_declaring_token", "oneof_not_declaring_token"]
 CLIENT = ["client_profile_rq_v102", "client_profile_rq_v160_unclosed_pretty", "client_statement_rq", "client_serialize_default_form", "client_serialize_request_with_overrides"]
@@ -621,7 +636,7 @@ def run(ctx):
             # all pairs over the document / tree / client operations; the converter probes among themselves; the small
             # parses with the failing parses and with each other
             main = [o for o in OPNAMES if o not in CONV and o not in PARSE_SMALL and o not in EXTRA]
-            seqs += list(itertools.product(EXTRA + ["serialize_inv_v1_unclosed_pretty", "parse_truncated"], repeat=2))
+            seqs += list(itertools.product(EXTRA + ["serialize_inv_v1_unclosed_pretty", "parse_truncated", "string_narrow_limit", "string_entity_narrow_limit", "parse_stmt_v1"], repeat=2))
             seqs += list(itertools.product(main, repeat=2))
             seqs += list(itertools.product(CONV, repeat=2))
             mix = PARSE_SMALL + ["parse_truncated", "parse_unknown_root", "convert_missing_required", "parse_stmt_v1"]
